@@ -105,6 +105,11 @@ fn must_fail<F: Fn(&mut String) -> std::fmt::Result>(acc: &mut Acc, fmt: &str, w
     }
 }
 
+/// letters that are specifiers in the documented table (with or without modifiers)
+fn is_documented_letter(c: char) -> bool {
+    [DATE_SPECS, TIME_SPECS, OFF_SPECS, DT_SPECS, DTO_SPECS, SPECIAL_SPECS].iter().any(|l| l.iter().any(|s| s.chars().last() == Some(c)))
+}
+
 fn failures(acc: &mut Acc) {
     let d = NaiveDate::from_ymd_opt(2001, 7, 8).unwrap();
     let t = NaiveTime::from_hms_nano_opt(0, 34, 59, 1_026_490_000).unwrap();
@@ -130,6 +135,20 @@ fn failures(acc: &mut Acc) {
     bad.sort();
     bad.dedup();
     for f in &bad {
+        // A letter that is not a specifier today may become one (the statement speaks of *unknown* specifiers): if the
+        // format-string reader now turns it into a field item instead of flagging an error, it is a newly defined
+        // specifier and outside this check. Still printing it as literal text, or anything else, is judged.
+        let last = f.chars().last().unwrap_or(' ');
+        if last.is_ascii_alphabetic() && f.chars().filter(|c| *c == '%').count() <= 2 {
+            let items: Vec<Item> = StrftimeItems::new(f).collect();
+            let has_err = items.iter().any(|i| matches!(i, Item::Error));
+            let field_items = items.iter().filter(|i| matches!(i, Item::Numeric(..) | Item::Fixed(..))).count();
+            let expected_fields = if f.starts_with("%Y-") { 2 } else { 1 };
+            if !has_err && field_items == expected_fields && !is_documented_letter(last) {
+                acc.skip("a letter outside today's specifier table that the format-string reader now defines as a field");
+                continue;
+            }
+        }
         must_fail(acc, f, "NaiveDate", |s| write!(s, "{}", d.format(f)));
         must_fail(acc, f, "NaiveTime", |s| write!(s, "{}", t.format(f)));
         must_fail(acc, f, "NaiveDateTime", |s| write!(s, "{}", ndt.format(f)));
